@@ -107,6 +107,8 @@ func histories(thorough bool) []History {
 		History{"in-place with a stale sibling .bak", clitree.Tree{"s.css": {Data: []byte(samples["css"])}, "s.css.bak": {Data: []byte("older { version : 1 }\n")}}, []string{"-o", "s.css", "s.css"}},
 		// fails only after the parser has rewritten part of its input in place
 		History{"in-place failing html", clitree.Tree{"bad.html": {Data: []byte("<P CLASS=x> x   y </P><SCRIPT>var a = ( 1 ;</SCRIPT>\n")}}, []string{"-o", "bad.html", "bad.html"}},
+		// an input that merely has the name a backup of the destination would have
+		History{"input named like the backup of the output", clitree.Tree{"out.js.bak": {Data: []byte("var a = 1 ;\n")}}, []string{"--type", "js", "-o", "out.js", "out.js.bak"}},
 		// two inputs that map to the same destination, which is one of them
 		History{"two inputs onto one of them", clitree.Tree{"x.js": {Data: []byte("var top = 1 ;\n")}, "sub/x.js": {Data: []byte("var sub = 2 ;\n")}}, []string{"-v", "-o", ".", "sub/x.js", "x.js"}},
 		History{"two inputs with the same name into a directory", clitree.Tree{"a/x.js": {Data: []byte("var top = 1 ;\n")}, "b/x.js": {Data: []byte("var sub = 2 ;\n")}}, []string{"-v", "-o", "out/", "a/x.js", "b/x.js"}},
